@@ -319,7 +319,7 @@ def main(argv):
         near = [c for c in codes if c[:2] in cats]
         far = [c for c in codes if c[:2] not in cats]
         codes = near + rng.sample(far, 1000)
-        shaped = set(rng.sample(near, min(len(near), 1500)))
+        shaped = set(rng.sample(near, min(len(near), 1500))) | set(c for c in near if c[:2] == "OM")
     else:
         shaped = set(codes)
     work = []
@@ -336,6 +336,10 @@ def main(argv):
                     shapes.add(n)
         for n in sorted(shapes):
             work.append((code, bytes([1] + [0] * (n - 1))))
+        if code[:2] == "OM":
+            # mark events name a declared mark type: probe with the single (1) and the stack (2) type of the base trace
+            work.append((code, obs.i64(5) + obs.i32(1)))
+            work.append((code, obs.i64(5) + obs.i32(2)))
     batches = [work[i:i + 40] for i in range(0, len(work), 40)]
     nprobe = 0
     accepted_unlisted = {}
